@@ -25,6 +25,8 @@ def run(chk):
     # (B1) the statement semantics the expectations rest on: DeviationIffUnsatisfied etc. on every rich program
     depth = 3 if q else 4
     behs = vlib.generate_behaviours(chk, depth, rich=True, name="rich")
+    for b in behs:
+        b.pop("rets", None)      # handles and gate counts are C16's business: only the results of prove and verify are judged here
     good = [b for b in behs if b["expect_v"] == "ok" and b["expect_p"] == "ok"]
     chk.sample({"tlc_behaviour": good[len(good) // 2]})
     # (B2) replay on the 256-bit curves: ideal verdict "accepted"
